@@ -151,4 +151,6 @@ def weird_ident(rng) -> bytes:
     for _ in range(rng.choice([0, 0, 1, 1, 2])):
         pos = rng.randrange(1, len(out) + 1)
         out.insert(pos, rng.choice([0x01, 0x07, 0x1B, 0x7F, 0x1C, 0x1F, 0x09, 0x0B, 0x00, 0x5C, 0x80, 0xFF]))
-    return bytes(out).replace(b"!", b"_").replace(b"\n", b"_")
+    if rng.random() < 0.15:
+        out.insert(rng.randrange(1, len(out) + 1), 0x21)  # '!' is a printable character: the ident pattern accepts it
+    return bytes(out).replace(b"\n", b"_")
